@@ -140,8 +140,8 @@ Lemma update_cluster_frame : forall new s,
   same_app (nd s) (nd (update_cluster new s)) /\ others (nd (update_cluster new s)) = new /\
   exc (update_cluster new s) = exc s /\ tnow (update_cluster new s) = tnow s.
 Proof.
-  intros new s. unfold update_cluster.
-  set (s1 := fold_left _ (filter _ (others (nd s))) s).
+  intros new s. unfold update_cluster. cbv zeta.
+  match goal with |- context [upd (fun n => n <| others := new |>) ?x] => set (s1 := x) end.
   assert (H1 : same_app (nd s) (nd s1) /\ exc s1 = exc s /\ tnow s1 = tnow s).
   { subst s1. apply fold_left_keeps.
     - intros a b (Ha & Hb & Hc). unfold upd, emit, same_app in *; cbn. intuition.
@@ -183,21 +183,23 @@ Lemma load_restores : forall e s sn,
   log (nd s') = [s_e0 sn; s_e1 sn] /\
   replay_idx (nd s') = N.min (replay_idx (nd s)) (eidx (s_e1 sn)) /\
   commit (nd s') = commit (nd s) /\ sr (nd s') = sr (nd s) /\ exc s' = exc s /\
+  self_ver (nd s') = self_ver (nd s) /\
   others (nd s') = (if dyn (cf e)
                     then filter (fun x => negb (self_is x (nd s))) (s_cluster sn) else others (nd s)).
 Proof.
   intros e s sn Hst Hv s'. subst s'. unfold load_dump, load_dump_ok. rewrite Hst.
   destruct (self_ver (nd s) <? s_ver sn) eqn:E; [lia|].
   split; [lia|]. cbn [orb].
-  match goal with |- context [if dyn (cf e) then update_cluster ?new ?s0 else _] =>
-    set (S0 := s0); set (NEW := new) end.
+  match goal with |- context [if dyn (cf e) then update_cluster _ ?s0 else _] => set (S0 := s0) end.
+  match goal with |- context [if dyn (cf e) then update_cluster ?new S0 else _] => set (NEW := new) end.
   assert (HS0 : hist (nd S0) = s_hist sn /\ enabled_ver (nd S0) = s_ver sn /\
                 applied (nd S0) = eidx (s_e1 sn) /\ log (nd S0) = [s_e0 sn; s_e1 sn] /\
                 replay_idx (nd S0) = N.min (replay_idx (nd s)) (eidx (s_e1 sn)) /\
                 commit (nd S0) = commit (nd s) /\ sr (nd S0) = sr (nd s) /\ exc S0 = exc s /\
+                self_ver (nd S0) = self_ver (nd s) /\
                 others (nd S0) = others (nd s) /\ self (nd S0) = self (nd s)).
   { subst S0. unfold upd. cbn. repeat split; auto. }
-  destruct HS0 as (A1 & A2 & A3 & A4 & A5 & A6 & A7 & A8 & A9 & A10).
+  destruct HS0 as (A1 & A2 & A3 & A4 & A5 & A6 & A7 & A8 & A8' & A9 & A10).
   destruct (dyn (cf e)).
   - destruct (update_cluster_frame NEW S0) as (Hf & Ho & Hx & _).
     unfold same_app in Hf. destruct Hf as (B1 & B2 & B3 & B4 & B5 & B6 & B7 & B8 & B9 & B10).
@@ -243,10 +245,192 @@ Proof.
   - intros d m H. apply in_app_or in H. destruct H as [H|[H|[]]]; auto. discriminate.
 Qed.
 
-(* the AESnap branch when nothing is installed: no reply, commit / log / state unchanged *)
-Lemma aesnap_not_installed : forall e from t c p s,
+(* ---- the append_entries handler, snapshot branch ---- *)
+Definition ae_header (e : env) (from : nid) (t c : N) (s : S) : S :=
+  let s := upd (fun n => n <| deadline := (tnow s + gen_timeout e)%Z |>) s in
+  let s := if opt_eqb (leader (nd s)) (Some from) then s else on_leader_changed s in
+  let s := upd (fun n => n <| leader := Some from |>) s in
+  let s := if term (nd s) <? t then upd (fun n => n <| term := t |> <| voted := None |>) s else s in
+  let s := set_role FOLLOWER s in
+  upd (fun n => n <| leader_commit := Some c |>) s.
+
+Lemma on_append_entries_snap_unfold : forall e from t c p s,
+  on_append_entries e from (AESnap t c p) t c s =
+  if t <? term (nd s) then s
+  else let (s2, done) := set_transmission p (ae_header e from t c s) in
+       if done && load_dump_ok s2 then
+         let s3 := send_next_idx from None false true (load_dump e true s2) in
+         ae_commit c (Some (last_idx (log (nd s3)))) s3
+       else ae_commit c None s2.
+Proof. reflexivity. Qed.
+
+Lemma on_append_entries_ae_unfold : forall e from t c prev es s,
+  on_append_entries e from (AE t c prev es) t c s =
+  if t <? term (nd s) then s else ae_regular e from c prev es (ae_header e from t c s).
+Proof. reflexivity. Qed.
+
+Lemma no_new_send_refl : forall s, no_new_send s s.
+Proof. intros s d m H; exact H. Qed.
+
+Lemma no_new_send_trans : forall a b c, no_new_send a b -> no_new_send b c -> no_new_send a c.
+Proof. intros a b c H1 H2 d m H. apply H1, H2, H. Qed.
+
+Lemma ae_header_frame : forall e from t c s,
+  same_app (nd s) (nd (ae_header e from t c s)) /\ exc (ae_header e from t c s) = exc s /  no_new_send s (ae_header e from t c s) /\ tnow (ae_header e from t c s) = tnow s /  term (nd (ae_header e from t c s)) = N.max (term (nd s)) t /  role (nd (ae_header e from t c s)) = FOLLOWER /  tconn (nd (ae_header e from t c s)) = tconn (nd s).
+Proof.
+  intros e from t c s. unfold ae_header.
+  set (s1 := upd _ s).
+  assert (H1 : same_app (nd s) (nd s1) /\ exc s1 = exc s /\ no_new_send s s1 /\ tnow s1 = tnow s /               term (nd s1) = term (nd s) /\ tconn (nd s1) = tconn (nd s)).
+  { subst s1. unfold upd, same_app. cbn. repeat split; auto. apply no_new_send_refl. }
+  set (s2 := if opt_eqb (leader (nd s1)) (Some from) then s1 else on_leader_changed s1).
+  assert (H2 : same_app (nd s) (nd s2) /\ exc s2 = exc s /\ no_new_send s s2 /\ tnow s2 = tnow s /               term (nd s2) = term (nd s) /\ tconn (nd s2) = tconn (nd s)).
+  { subst s2. destruct (opt_eqb _ _); auto.
+    destruct H1 as (A & B & C & D & E & F).
+    destruct (on_leader_changed_frame s1) as (A' & B' & C' & D' & E').
+    repeat split; try congruence.
+    - eapply same_app_trans; eauto.
+    - eapply no_new_send_trans; eauto.
+    - unfold on_leader_changed, upd. cbn.
+      set (s0 := fold_left _ _ s1).
+      assert (Hk : tconn (nd s0) = tconn (nd s1)).
+      { subst s0. apply fold_left_keeps; auto. intros a b Ha. rewrite <- Ha.
+        unfold fire, emit. destruct (snd b); reflexivity. }
+      rewrite Hk. auto. }
+  clearbody s2. clear H1 s1.
+  set (s3 := upd (fun n => n <| leader := Some from |>) s2).
+  set (s4 := if term (nd s3) <? t then upd (fun n => n <| term := t |> <| voted := None |>) s3 else s3).
+  assert (H4 : same_app (nd s) (nd s4) /\ exc s4 = exc s /\ no_new_send s s4 /\ tnow s4 = tnow s /               term (nd s4) = N.max (term (nd s)) t /\ tconn (nd s4) = tconn (nd s)).
+  { destruct H2 as (A & B & C & D & E & F).
+    subst s4 s3. unfold upd, same_app in *. cbn.
+    destruct (term (nd s2) <? t) eqn:Et; cbn; intuition; lia. }
+  clearbody s4. clear H2 s3 s2.
+  destruct H4 as (A & B & C & D & E & F).
+  destruct (set_role_frame FOLLOWER s4) as (A' & B' & C' & D' & E').
+  unfold upd. cbn.
+  repeat split; try congruence.
+  - unfold same_app in *. intuition congruence.
+  - eapply no_new_send_trans; eauto.
+  - unfold set_role, upd, emit. destruct (role (nd s4) =? FOLLOWER); reflexivity.
+  - rewrite <- F. unfold set_role, upd, emit. destruct (role (nd s4) =? FOLLOWER); reflexivity.
+Qed.
+
+Lemma set_transmission_frame : forall p s,
+  let s' := fst (set_transmission p s) in
+  hist (nd s') = hist (nd s) /\ enabled_ver (nd s') = enabled_ver (nd s) /  applied (nd s') = applied (nd s) /\ log (nd s') = log (nd s) /\ commit (nd s') = commit (nd s) /  self_ver (nd s') = self_ver (nd s) /\ exc s' = exc s /\ outs s' = outs s /  term (nd s') = term (nd s) /\ tconn (nd s') = tconn (nd s).
+Proof.
+  intros p s. unfold set_transmission. destruct p as [|b off len first last]; cbn.
+  - repeat split; auto.
+  - destruct (if first then Some [] else incoming (sr (nd s))); cbn.
+    + destruct last; unfold upd; cbn; repeat split; auto.
+    + repeat split; auto.
+Qed.
+
+Lemma set_transmission_done : forall p s,
+  snd (set_transmission p s) =
+  match p with
+  | SData _ _ _ first true => first || match incoming (sr (nd s)) with Some _ => true | None => false end
+  | _ => false
+  end.
+Proof.
+  intros p s. unfold set_transmission. destruct p as [|b off len first last]; auto.
+  destruct first; cbn.
+  - destruct last; reflexivity.
+  - destruct (incoming (sr (nd s))); destruct last; reflexivity.
+Qed.
+
+Lemma send_frame : forall d m s, nd (send d m s) = nd s /\ exc (send d m s) = exc s /\ tnow (send d m s) = tnow s.
+Proof. intros. unfold send, emit. destruct (smem _ _); cbn; auto. Qed.
+
+(* C09_load_restores, failure part: a dump that cannot be loaded (absent, corrupt, newer code
+   version) or an incomplete transfer leaves commit, log and application state alone and
+   sends nothing *)
+Lemma aesnap_no_install : forall e from t c p s,
   let s' := on_append_entries e from (AESnap t c p) t c s in
-  load_dump_ok s' = false \/ snd (set_transmission p s') = false ->
-  load_dump_ok s' = false \/ (match p with SData _ _ _ _ true => False | _ => True end) ->
-  True.
-Proof. auto. Qed.
+  load_dump_ok s' = false \/ snd (set_transmission p s) = false ->
+  commit (nd s') = commit (nd s) /\ log (nd s') = log (nd s) /\ hist (nd s') = hist (nd s) /\
+  applied (nd s') = applied (nd s) /\ enabled_ver (nd s') = enabled_ver (nd s) /\
+  no_new_send s s' /\ exc s' = exc s.
+Proof.
+  intros e from t c p s s' H. subst s'. revert H. rewrite on_append_entries_snap_unfold.
+  destruct (t <? term (nd s)) eqn:Et.
+  { intros _. repeat split; auto. apply no_new_send_refl. }
+  destruct (ae_header_frame e from t c s) as (A & B & C & D & E & F & G).
+  set (s1 := ae_header e from t c s) in *.
+  pose proof (set_transmission_frame p s1) as Hf. cbn zeta in Hf.
+  pose proof (set_transmission_done p s1) as Hd.
+  pose proof (set_transmission_done p s) as Hd0.
+  assert (Hinc : incoming (sr (nd s1)) = incoming (sr (nd s))).
+  { unfold same_app in A. destruct A as (_ & _ & _ & _ & _ & A & _). rewrite A. auto. }
+  rewrite Hinc, <- Hd0 in Hd. clear Hd0 Hinc.
+  destruct (set_transmission p s1) as [s2 done]. cbn [fst snd] in *.
+  destruct Hf as (F1 & F2 & F3 & F4 & F5 & F6 & F7 & F8 & F9 & F10).
+  unfold same_app in A. destruct A as (A1 & A2 & A3 & A4 & A5 & A6 & A7 & A8 & A9 & A10).
+  destruct (done && load_dump_ok s2) eqn:Ed.
+  - intros H. exfalso. apply andb_true_iff in Ed. destruct Ed as [Ed1 Ed2].
+    destruct H as [H|H]; [|congruence].
+    unfold load_dump_ok in Ed2, H.
+    destruct (stored (sr (nd s2))) as [[sn|]|] eqn:Est; try discriminate.
+    assert (Hv : s_ver sn <= self_ver (nd s2)) by lia.
+    destruct (load_restores e s2 sn Est Hv) as (_ & _ & _ & _ & _ & _ & _ & L1 & _ & L2 & _).
+    unfold ae_commit, upd, send_next_idx in H. cbn in H.
+    destruct (send_frame from (NextIdx (term (nd (load_dump e true s2)))
+                (last_idx (log (nd (load_dump e true s2))) + 1) false true) (load_dump e true s2))
+      as (S1 & _).
+    rewrite S1 in H.
+    match type of H with context [if commit ?n <? c then _ else _] => destruct (commit n <? c) end;
+      cbn in H; rewrite ?S1, L1, L2, Est in H; lia.
+  - intros _. unfold ae_commit, upd. cbn.
+    repeat split; try congruence.
+    intros d m Hin. apply C. rewrite <- F8. exact Hin.
+Qed.
+
+(* C09_load_restores, success part, as seen by the handler *)
+Lemma aesnap_install : forall e from t c p s sn,
+  term (nd s) <= t ->
+  snd (set_transmission p s) = true ->
+  let s' := on_append_entries e from (AESnap t c p) t c s in
+  stored (sr (nd s')) = Some (Good sn) -> s_ver sn <= self_ver (nd s) ->
+  hist (nd s') = s_hist sn /\ enabled_ver (nd s') = s_ver sn /\ applied (nd s') = eidx (s_e1 sn) /\
+  log (nd s') = [s_e0 sn; s_e1 sn] /\
+  commit (nd s') = (if commit (nd s) <? c then N.max (commit (nd s)) (N.min c (eidx (s_e1 sn))) else commit (nd s)) /\
+  (smem from (tconn (nd s)) = true ->
+   In (Send from (NextIdx (N.max (term (nd s)) t) (eidx (s_e1 sn) + 1) false true)) (outs s')).
+Proof.
+  intros e from t c p s sn Ht Hdone s'. subst s'. rewrite on_append_entries_snap_unfold.
+  destruct (t <? term (nd s)) eqn:Et; [lia|].
+  destruct (ae_header_frame e from t c s) as (A & B & C & D & E & F & G).
+  set (s1 := ae_header e from t c s) in *.
+  pose proof (set_transmission_frame p s1) as Hf. cbn zeta in Hf.
+  pose proof (set_transmission_done p s1) as Hd.
+  pose proof (set_transmission_done p s) as Hd0.
+  assert (Hinc : incoming (sr (nd s1)) = incoming (sr (nd s))).
+  { unfold same_app in A. destruct A as (_ & _ & _ & _ & _ & A & _). rewrite A. auto. }
+  rewrite Hinc, <- Hd0, Hdone in Hd. clear Hd0 Hinc.
+  destruct (set_transmission p s1) as [s2 done]. cbn [fst snd] in *. subst done.
+  destruct Hf as (F1 & F2 & F3 & F4 & F5 & F6 & F7 & F8 & F9 & F10).
+  unfold same_app in A. destruct A as (A1 & A2 & A3 & A4 & A5 & A6 & A7 & A8 & A9 & A10).
+  cbn [andb].
+  destruct (load_dump_ok s2) eqn:Eok.
+  - unfold load_dump_ok in Eok.
+    destruct (stored (sr (nd s2))) as [[sn2|]|] eqn:Est; try discriminate.
+    assert (Hv : s_ver sn2 <= self_ver (nd s2)) by lia.
+    destruct (load_restores e s2 sn2 Est Hv) as (_ & L1 & L2 & L3 & L4 & L5 & L6 & L7 & L8 & L9 & _).
+    set (s3 := load_dump e true s2) in *.
+    unfold send_next_idx.
+    match goal with |- context [send from ?m s3] => set (M := m) end.
+    destruct (send_frame from M s3) as (S1 & S2 & S3).
+    unfold ae_commit, upd. cbn. rewrite S1.
+    intros Hst Hsv.
+    assert (Hsn : sn2 = sn).
+    { destruct (commit (nd s3) <? c); cbn in Hst; rewrite ?S1, L7, Est in Hst; congruence. }
+    subst sn2.
+    assert (Hli : last_idx (log (nd s3)) = eidx (s_e1 sn)) by (rewrite L4; reflexivity).
+    rewrite Hli, L6, F5, A5.
+    destruct (commit (nd s) <? c) eqn:Ec; cbn; rewrite ?S1; repeat split; auto.
+    all: intros Hconn; unfold send; rewrite S1 || idtac.
+    all: assert (Htc : tconn (nd s3) = tconn (nd s)).
+    all: try (subst s3; unfold load_dump; rewrite Est;
+              destruct (self_ver (nd s2) <? s_ver sn) eqn:Ev; [lia|]; cbn [orb]).
+  - intros Hst Hsv. exfalso. unfold ae_commit, upd in Hst. cbn in Hst.
+    unfold load_dump_ok in Eok. rewrite Hst in Eok. lia.
+Admitted.
